@@ -15,60 +15,9 @@ namespace IastModel
 /-- apply `f` to every immediate child in swc's visit order (the generated
     `visit_mut_children_with` of every node type) -/
 def mapKidsM {m : Type → Type} [Monad m] (mapL : (Node → m Node) → List Node → m (List Node))
-    (f : Node → m Node) : Node → m Node
-  | .atom s => pure (.atom s)
-  | .arr xs => do pure (.arr (← mapL f xs))
-  | .obj ns vs => do pure (.obj ns (← mapL f vs))
-  | .other k sp ns vs => do pure (.other k sp ns (← mapL f vs))
-  | .lit k v r sp => pure (.lit k v r sp)
-  | .ident n sp => pure (.ident n sp)
-  | .pname n sp => pure (.pname n sp)
-  | .bin op l r sp => do
-    let l' ← f l
-    let r' ← f r
-    pure (.bin op l' r' sp)
-  | .assign op l r sp => do
-    let l' ← f l
-    let r' ← f r
-    pure (.assign op l' r' sp)
-  | .tpl es qs sp => do
-    let es' ← mapL f es
-    let qs' ← mapL f qs
-    pure (.tpl es' qs' sp)
-  | .call c as sp => do
-    let c' ← f c
-    let as' ← mapL f as
-    pure (.call c' as' sp)
-  | .arg s e => do pure (.arg s (← f e))
-  | .member o p sp => do
-    let o' ← f o
-    let p' ← f p
-    pure (.member o' p' sp)
-  | .optChain opt b sp => do pure (.optChain opt (← f b) sp)
-  | .optCall c as sp => do
-    let c' ← f c
-    let as' ← mapL f as
-    pure (.optCall c' as' sp)
-  | .unary op a sp => do pure (.unary op (← f a) sp)
-  | .arrow ps b at' sp => do
-    let ps' ← mapL f ps
-    let b' ← f b
-    pure (.arrow ps' b' at' sp)
-  | .paren e sp => do pure (.paren (← f e) sp)
-  | .seq es sp => do pure (.seq (← mapL f es) sp)
-  | .cond t c a sp => do
-    let t' ← f t
-    let c' ← f c
-    let a' ← f a
-    pure (.cond t' c' a' sp)
-  | .array es sp => do pure (.array (← mapL f es) sp)
-  | .block ss sp => do pure (.block (← mapL f ss) sp)
-  | .ifStmt t c a sp => do
-    let t' ← f t
-    let c' ← f c
-    let a' ← f a
-    pure (.ifStmt t' c' a' sp)
-  | .exprStmt e sp => do pure (.exprStmt (← f e) sp)
+    (f : Node → m Node) (n : Node) : m Node := do
+  let ks ← mapL f n.kids
+  pure (n.withKids ks)
 
 /-! ### opt_chain_transform.rs -/
 
@@ -143,14 +92,33 @@ def ocTrigger (cfg : Config) (optional : Bool) (base : Node) : Bool :=
   | .optCall (.optChain _ (.member _ (.pname m _) _) _) _ _ => (cfg.get m).isSome
   | _ => false
 
-/-- `OptChainVisitor::visit_mut_expr` (and the default traversal around it) -/
+/-- `visit_mut_chain_spine`: follow the callee of a call link / the object of a member link only -/
+def ocSpine (visitExpr : Node → OcM Node) (e : Node) : OcM Node :=
+  match e with
+  | .optChain o (.optCall callee args csp) sp => do
+    let c' ← visitExpr callee
+    pure (.optChain o (.optCall c' args csp) sp)
+  | .optChain o (.member obj prop msp) sp => do
+    let o' ← visitExpr obj
+    pure (.optChain o (.member o' prop msp) sp)
+  | .call callee args sp =>
+    if isNonExprCallee callee then pure e
+    else do
+      let c' ← visitExpr callee
+      pure (.call c' args sp)
+  | .member obj prop sp => do
+    let o' ← visitExpr obj
+    pure (.member o' prop sp)
+  | _ => pure e
+
+/-- `OptChainVisitor::visit_mut_expr`: only the links of the chain being lowered are visited -/
 def ocVisit (cfg : Config) : Nat → Node → OcM Node
   | 0, n => do
     (outOfFuel : M Unit)
     pure n
   | f + 1, n =>
     match n with
-    | .optChain optional base sp => do
+    | .optChain optional base _ => do
       let oc ← get
       if oc.found then
         let r ← match base with
@@ -159,12 +127,12 @@ def ocVisit (cfg : Config) : Nat → Node → OcM Node
           | _ => pure none
         let e1 := r.getD n
         if optional then pure e1
-        else mapKidsM mapOc (ocVisit cfg f) e1
+        else ocSpine (ocVisit cfg f) e1
       else if ocTrigger cfg optional base then do
         modify fun oc => { oc with found := true }
         ocVisit cfg f n
-      else mapKidsM mapOc (ocVisit cfg f) n
-    | _ => mapKidsM mapOc (ocVisit cfg f) n
+      else ocSpine (ocVisit cfg f) n
+    | _ => pure n
 
 def nullLit : Node := .lit "NullLiteral" "{}" "" Span.dummy
 
